@@ -39,4 +39,11 @@ def jBool (b : Bool) : Json := Json.bool b
 def jErr (s : String) : Json := Json.mkObj [("err", Json.str s)]
 def jOk (v : Json) : Json := Json.mkObj [("ok", v)]
 
+
+/-- floats cross the line protocol as their IEEE-754 bit patterns (exact in both directions) -/
+def pFloat (j : Json) : R Float := do
+  let n ← asNat j
+  return Float.ofBits n.toUInt64
+def jFloat (x : Float) : Json := jNat x.toBits.toNat
+
 end Driver
